@@ -1059,6 +1059,35 @@ func (z *zfn) nilEdges(errV ssa.Value) []*ssa.BasicBlock {
 			}
 		}
 	}
+	// and every block behind such a test that the side on which the error is not nil cannot get to (the error may be
+	// joined with a later one and tested again: `if err == nil && … { err = f() }; if err != nil { return }` — what
+	// follows is reached only with the first error nil, although no single edge says so)
+	for _, nt := range nilTests(errV) {
+		reached := map[*ssa.BasicBlock]bool{}
+		reachFromNilSide(nt, true, func(in ssa.Instruction) bool {
+			reached[in.Block()] = true
+			return false
+		}, nil)
+		tb := nt.iff.Block()
+		for _, b := range z.fn.Blocks {
+			if b == tb || reached[b] || !tb.Dominates(b) || len(b.Instrs) == 0 {
+				continue
+			}
+			// not in a loop around the test: a later iteration's value is another value
+			if l := innermostLoop(loopsOf(z.fn), b); l != nil && !l.blocks[tb] {
+				continue
+			}
+			already := false
+			for _, o := range out {
+				if o == b || o.Dominates(b) {
+					already = true
+				}
+			}
+			if !already {
+				out = append(out, b)
+			}
+		}
+	}
 	return out
 }
 
